@@ -16,6 +16,9 @@ pub struct Entry {
     pub dom: Dom,
     /// machine-integer entry: (signed, real 8-bit implementation run on the same inputs; None = panic)
     pub int: Option<(bool, Box<dyn Fn(&[i64]) -> Option<Out<i64>>>)>,
+    /// inputs satisfying the precondition of this entry's theorems (used by the witness search so that a
+    /// reported input is one on which the property actually speaks)
+    pub pre: Option<Box<dyn Fn(u64) -> Vec<f64>>>,
 }
 
 pub struct Reg { pub entries: Vec<Entry> }
@@ -23,7 +26,7 @@ impl Reg {
     pub fn new() -> Self { Reg { entries: vec![] } }
     pub fn add(&mut self, name: &str, nin: usize, sym: Box<dyn Fn(&[Sym]) -> Out<Sym>>, f: Option<Box<dyn Fn(&[f64]) -> Out<f64>>>) -> &mut Entry {
         assert!(!self.entries.iter().any(|e| e.name == name), "duplicate entry {}", name);
-        self.entries.push(Entry { name: name.to_string(), nin, sym, f64: f, budget: 100_000, dom: Dom::Mixed, int: None });
+        self.entries.push(Entry { name: name.to_string(), nin, sym, f64: f, budget: 100_000, dom: Dom::Mixed, int: None, pre: None });
         self.entries.last_mut().unwrap()
     }
 }
